@@ -45,8 +45,9 @@ class PeptidePoolSplitter():
         else:
             self.sources = set()
             for source_group in self.order:
-                if isinstance(sources, str):
-                    self.sources.add(source_group)
+                if isinstance(source_group, str):
+                    if source_group not in ['+', '*']:
+                        self.sources.add(source_group)
                 else:
                     self.sources.update([s for s in source_group if s not in ['+', '*']])
 
@@ -143,7 +144,7 @@ class PeptidePoolSplitter():
             if all(x in sources for x in wildcard_chrs):
                 raise ValueError(f"Invalid wildcard in souce order: {sources}")
             start = 0 if '*' in sources else 1
-            for i in range(start, len(individual_sources)):
+            for i in range(start, len(individual_sources) + 1):
                 for extra_sources in itertools.combinations(individual_sources, i):
                     expanded_sources = [x for x in sources if x not in wildcard_chrs] \
                         + list(extra_sources)
